@@ -150,7 +150,8 @@ Print Assumptions C05_psd_active_dims.
 
 Theorem C05_keval_psd_partial :
   (forall b ls, base_ok b ls -> psd (base_k b ls)) ->                                   (* kernel_psd: assumed *)
-  (forall k1 k2, psd k1 -> psd k2 -> psd (fun x y => k1 x y * k2 x y)) ->              (* hadamard_psd: assumed *)
+  (forall k1 k2, (forall x y, k1 x y = k1 y x) -> (forall x y, k2 x y = k2 y x) ->
+                 psd k1 -> psd k2 -> psd (fun x y => k1 x y * k2 x y)) ->              (* hadamard_psd (symmetric kernels): assumed *)
   forall e, psd_shape e -> psd (keval e).
 Proof. exact keval_psd_partial. Qed.
 Print Assumptions C05_keval_psd_partial.
